@@ -1,10 +1,33 @@
 package spg
 
 import (
+	"crypto/rand"
 	"strings"
 	"sync"
 	"testing"
 )
+
+// c14Source: a goroutine-safe pseudo-random source written in Go, so that the race detector sees the bytes being
+// stored into the caller's buffer (stores made by the kernel for the real source are invisible to it). The generator
+// state is locked; the copy into the caller's buffer is not - that buffer belongs to the caller.
+type c14Source struct {
+	mu sync.Mutex
+	s  uint64
+}
+
+func (r *c14Source) Read(b []byte) (int, error) {
+	tmp := make([]byte, len(b))
+	r.mu.Lock()
+	for i := range tmp {
+		r.s ^= r.s << 13
+		r.s ^= r.s >> 7
+		r.s ^= r.s << 17
+		tmp[i] = byte(r.s >> 32)
+	}
+	r.mu.Unlock()
+	copy(b, tmp)
+	return len(b), nil
+}
 
 // C14 replay (run under the race detector): goroutines share recipe values, a word list, the
 // package-level separator presets and constructed separator functions. A data race is reported by
@@ -16,6 +39,9 @@ func c14Has(s, set string) bool { return strings.ContainsAny(s, set) }
 func TestVerifReplay(t *testing.T) {
 	req := vLoad()
 	defer vFlush()
+	oldReader := rand.Reader
+	rand.Reader = &c14Source{s: uint64(req.Seed)*0x9E3779B97F4A7C15 + 1}
+	defer func() { rand.Reader = oldReader }()
 	rounds := 60
 	if req.Tier == "thorough" {
 		rounds = 600
